@@ -4,6 +4,7 @@ import CatiiProofs.IIndexWf
 import CatiiProofs.Counting
 import CatiiProofs.PickCommon
 import CatiiProofs.EqGenBridge
+import CatiiProofs.CommonGenBridge
 /-!
 # C15 — library-chosen common value; equality is canonical
 
@@ -150,6 +151,13 @@ theorem chosen_is_most_frequent (i : IIndex) (h : WF i) (v : Int) (hc : chooseCo
     rw [hxu] at h1
     omega
   · omega
+
+/-- the same for the choice REGENERATED from the `new_common is None` block of `shift_common` on every run
+(`tools/translate_common.py`: counts accumulated per value over the entries, `size - sum` for the current common value, the
+largest (count, value) pair): the value the current source picks occurs at least as often as every other value -/
+theorem generated_choice_is_most_frequent (i : IIndex) (h : WF i) (v : Int) (hc : Gen.chooseCommonGen i = some v) (u : Int) :
+    (denseArr i).data.count u ≤ (denseArr i).data.count v := by
+  rw [gen_chooseCommon_eq] at hc; exact chosen_is_most_frequent i h v hc u
 
 /-- after `shift_common()` the stored common value is a most frequent value of the (unchanged) dense array -/
 theorem normalised_common_is_most_frequent (i : IIndex) (h : WF i) (hnd : i.ndim ≤ 2) (r : IIndex)
